@@ -3,6 +3,8 @@ import HdwModel.Model.Basic
 import HdwModel.Prim.Sha256
 import HdwModel.Prim.Sha512
 import HdwModel.Prim.Keccak
+import HdwModel.Prim.Secp256k1
+import HdwModel.Model.Curve
 
 namespace Hdw.Prim
 
@@ -10,5 +12,20 @@ def real : Prims where
   sha256 := sha256
   sha512 := sha512
   keccak256 := keccak256
+
+end Hdw.Prim
+
+namespace Hdw.Prim
+
+/-- the executable secp256k1 as a `Curve` -/
+def realCurve : Curve Secp.Pt where
+  n := Secp.n
+  mulG := Secp.mulG
+  mul := Secp.mul
+  add := Secp.add
+  x := fun p => match p with | some (x, _) => x | none => 0
+  y := fun p => match p with | some (_, y) => y | none => 0
+  isInf := fun p => p.isNone
+  lift := fun x odd => match Secp.lift x odd with | none => none | some q => some (some q)
 
 end Hdw.Prim
